@@ -17,7 +17,10 @@ RULE = ("X25519: full cross product of a scalar alphabet (0,1,2,7,8,2^254,2^254+
         "box_beforenm = HSalsa20(q,0), xchacha beforenm = HChaCha20(q,0), kx session keys cross-equal and = BLAKE2b-512(q||cpk||spk), "
         "low-order peer keys refused; ~120 (scalar, point) pairs constructed backwards so that the SHARED SECRET has exactly one non-zero byte at each "
         "byte position / one non-zero word / is 1..4 or p-1..p-3 (must be returned, and accepted by box_beforenm); box/kx seed_keypair = documented hash of the seed for 6 seed patterns x lengths. Every "
-        "(scalar, point, backend) is one distinct case compared with the reference.")
+        "(scalar, point, backend) is one distinct case compared with the reference. Call forms with the result written over the point / the "
+        "scalar. Dense differential family: 2^21 (thorough 2^24) declared counter-generated (scalar, point) pairs through the sandy2x, fe51 and "
+        "fe25.5 ladders, per-block digests compared, differing cases judged by the reference (a bounded deterministic family, not a class "
+        "argument: it reaches limb-carry coincidences of probability down to about 2^-19 per call).")
 
 META = {
     "engine": "E-shape", "level": "exploration",
@@ -229,6 +232,54 @@ def _backend_worker(args):
     return tag, feats, n, fails[:20]
 
 
+DENSE = [("native", ""), ("native", configs.CHAIN[3]), ("noti", "")]       # sandy2x AVX assembly, ref10 on 51-bit limbs, ref10 on 25.5-bit limbs
+
+def dense_family(tier, res):
+    """2^21 (thorough 2^24) declared pseudo-random (scalar, point) pairs through every ladder; digests per 4096-case block must agree, differing
+    cases are judged with the big-integer reference.  Returns the number of evaluations."""
+    import subprocess
+    import ec25519 as ec
+    from vf import build
+    nblk = 512 if tier == "quick" else 4096
+    exes = {}
+    for v in sorted(set(v for v, _ in DENSE)):
+        exes[v] = os.path.join(build.build(v), "h_c05dense")
+        build.link_harness(v, exes[v], [os.path.join(common.VERIF, "harness", "c05_dense.c")])
+    def run(v, c, dump=None):
+        env = dict(os.environ); env.pop("SODIUM_VERIF_CPU_DISABLE", None); env.pop("VERIF_DENSE_DUMP", None)
+        if c: env["SODIUM_VERIF_CPU_DISABLE"] = c
+        if dump is not None: env["VERIF_DENSE_DUMP"] = str(dump)
+        o = subprocess.run([exes[v], str(nblk)], env=env, capture_output=True, text=True, timeout=3000)
+        if o.returncode != 0: common.infra("dense X25519 driver failed for %s[%s]: %s" % (v, c, o.stderr[:300]))
+        return o.stdout.splitlines()
+    digs = {}
+    for v, c in DENSE:
+        d = {}
+        for l in run(v, c):
+            if l.startswith("DIG "): _, b, h = l.split(); d[int(b)] = h
+        if len(d) != nblk: common.infra("dense X25519 driver: %d of %d block digests for %s[%s]" % (len(d), nblk, v, c))
+        digs[(v, c)] = d
+    bad = sorted(b for b in range(nblk) if len(set(digs[k][b] for k in digs)) > 1)
+    for b in bad[:3]:
+        cases = {}
+        for v, c in DENSE:
+            for l in run(v, c, dump=b):
+                if l.startswith("CASE "):
+                    _, i, r, n_, p_, q_ = l.split(); cases.setdefault(int(i), {})[(v, c)] = (int(r), n_, p_, q_)
+        for i, per in sorted(cases.items()):
+            if len(set((r, q) for r, _, _, q in per.values())) > 1:
+                n_, p_ = next(iter(per.values()))[1:3]
+                want = ec.x25519(bytes.fromhex(n_), bytes.fromhex(p_))
+                for (v, c), (r, _, _, q) in per.items():
+                    ok = (r == -1) if want == bytes(32) else (r == 0 and q == want.hex())
+                    if not ok:
+                        res.fails.append(("crypto_scalarmult/dense/%s[%s]/n=%s/p=%s" % (v, "-" + c if c else "all", n_, p_), "ret %d got %s want %s (block %d case %d of the declared family)" % (r, q, want.hex(), b, i),
+                                          {"cmd": ["python3", "vf/check.py", "C05"], "env": {}}))
+                break
+    if bad and not res.fails: common.infra("dense X25519 family: block digests differ but no differing case was found")
+    return nblk * 4096 * len(DENSE)
+
+
 def prepare(tier):
     pass
 
@@ -258,11 +309,12 @@ def main(tier):
         total += n; tags.append("%s avx=%d sse2=%d" % (tag, feats["avx"], feats["sse2"]))
         for k, d in fails:
             res.fails.append((k, d, {"cmd": ["python3", "vf/check.py", "C05"], "env": {}}))
+    dense_n = dense_family(tier, res); total += dense_n
     zero = sum(1 for row in ref for x in row if x == bytes(32))
     res.samples = ["crypto_scalarmult n=%s p=%s -> %s" % (S[5].hex(), Pts[9].hex(), ref[5][9].hex()),
                    "crypto_scalarmult n=%s p=%s (low order) -> must return -1" % (S[3].hex(), Pts[0].hex()),
                    "crypto_scalarmult n=%s p=%s (p+2 with bit 255 set: reduced to 2, top bit ignored) -> %s" % (S[20].hex(), le((P + 2) | 1 << 255).hex(), ec.x25519(S[20], le((P + 2) | 1 << 255)).hex())]
     cov = {"evaluations": total, "distinct_nontrivial": total, "rule": RULE, "exhaustive": True, "scalars": len(S), "points": len(Pts),
-           "reference_zero_results": zero, "key_pairs": nk, "structured_output_cases": len(struct), "backends": tags}
+           "reference_zero_results": zero, "key_pairs": nk, "structured_output_cases": len(struct), "dense_differential_cases": dense_n, "backends": tags}
     common.finish("C05", tier, "exploration", res, cov,
                   ["values outside the structured alphabets are not covered", "reference: ref/ec25519.py RFC 7748 ladder"], t0)
